@@ -521,5 +521,28 @@ func joinRule(c *core.Ctx, r *core.Report, f *runnerFacts) {
 	pd := an.NewPostDom(f.stop)
 	entry := f.stop.Blocks[0].Instrs[0]
 	waits := entry == f.stopRecv || pd.PostDominates(f.stopRecv, entry)
+	if !waits {
+		// a runner that was never started has nothing to wait for: returns taken only when the stored cancel function
+		// is nil (nothing was started, or a pending start was just abandoned) are not waits that were skipped
+		waits = true
+		for _, ret := range an.Returns(f.stop) {
+			if an.Dominates(f.stopRecv, ret) {
+				continue
+			}
+			neverStarted := false
+			for _, g := range an.GuardsOf(ret.Block()) {
+				bo, isBin := g.Cond.(*ssa.BinOp)
+				if !isBin || !isNilConst(bo.Y) || (bo.Op == token.EQL) != g.Polarity {
+					continue
+				}
+				if fld, owner := an.TerminalField(stripAllocs(bo.X)); fld != nil && an.IsNamed(fld.Type(), "context", "CancelFunc") && an.IsNamed(owner, raterunPkg, "Runner") {
+					neverStarted = true
+				}
+			}
+			if !neverStarted {
+				waits = false
+			}
+		}
+	}
 	r.Check(waits, core.FuncName(f.stop)+"#wait", an.Pos(c, f.stopRecv), "Stop receives from the join channel on every path", "Stop can return without waiting on the join channel")
 }
